@@ -483,8 +483,10 @@ class KafkaCodec(object):
             ApiVersionsRequest => [ApiVersionRequest]
                 ApiVersionRequest => ApiKey
         """
-        return cls._encode_message_header(client_id, correlation_id, api_version_request.api_key) + struct.pack(
-            ">i", api_version_request.api_version
+        # An ApiVersionsRequest (v0) has no body: the requested version goes in
+        # the request header.
+        return cls._encode_message_header(
+            client_id, correlation_id, api_version_request.api_key, api_version_request.api_version
         )
 
     @classmethod
